@@ -271,6 +271,16 @@ class Analysis:
                                 hard.append((e.lineno, f'{fi.where(e.lineno)}: in {fi.qual}: {e.text}'))
                         elif e.kind == 'write' and e.origin and e.origin.startswith('G:'):
                             hard.append((e.lineno, f'{fi.where(e.lineno)}: in {fi.qual}: {e.text} {describe_origin(e.origin)}'))
+            # a memoising decorator IS module-level mutable state: the result object of one call is kept and handed out again, so
+            # what a later call returns depends on what the caller did to an earlier result (and on the call history)
+            for fi in self.functions:
+                if fi.module != mname:
+                    continue
+                for dec in getattr(fi, 'decorators', []) or []:
+                    base = dec.split('(')[0].strip()
+                    if base.split('.')[-1] in ('lru_cache', 'cache', 'cached_property', 'memoize', 'memoized'):
+                        hard.append((fi.lines[0], f'{fi.where()}: {fi.qual} is decorated with @{dec}: results are '
+                                                                  f'retained between calls (hidden module-level cache of mutable objects)'))
             mut = sorted(n for n, (ln, v, isms) in m.globals.items() if isms)
             oid = f'frames.C10.{mname}.module-state'
             hard = dedup(hard)
